@@ -62,6 +62,59 @@ def postfixOf : Tree → List Tok
   | .deref t => postfixOf t ++ [.deref]
   | .bin o l r => postfixOf l ++ postfixOf r ++ [.bin o]
 
+/-! ## decimal literals -/
+
+/-- decimal rendering of a natural number (no leading zeros) -/
+def renderNat (n : Nat) : Bytes :=
+  if h : n < 10 then [UInt8.ofNat (48 + n)]
+  else renderNat (n / 10) ++ [UInt8.ofNat (48 + n % 10)]
+termination_by n
+decreasing_by omega
+
+theorem digit_cases (d : Nat) (h : d < 10) :
+    d = 0 ∨ d = 1 ∨ d = 2 ∨ d = 3 ∨ d = 4 ∨ d = 5 ∨ d = 6 ∨ d = 7 ∨ d = 8 ∨ d = 9 := by omega
+
+theorem digitVal_ofNat (d : Nat) (h : d < 10) : digitVal (UInt8.ofNat (48 + d)) = some d := by
+  rcases digit_cases d h with rfl | rfl | rfl | rfl | rfl | rfl | rfl | rfl | rfl | rfl <;> decide
+
+theorem digit_not_sign (d : Nat) (h : d < 10) :
+    (UInt8.ofNat (48 + d) == 0x2D) = false ∧ (UInt8.ofNat (48 + d) == 0x2B) = false := by
+  rcases digit_cases d h with rfl | rfl | rfl | rfl | rfl | rfl | rfl | rfl | rfl | rfl <;> decide
+
+theorem parseDigits_append (a b : Bytes) (acc : Nat) :
+    parseDigits (a ++ b) acc = match parseDigits a acc with
+                               | some x => parseDigits b x
+                               | none => none := by
+  induction a generalizing acc with
+  | nil => rfl
+  | cons c a ih =>
+    simp only [List.cons_append, parseDigits]
+    cases digitVal c with
+    | none => rfl
+    | some d => exact ih _
+
+theorem parseDigits_render (n : Nat) : parseDigits (renderNat n) 0 = some n := by
+  induction n using Nat.strongRecOn with
+  | _ n ih =>
+    rw [renderNat]
+    by_cases h : n < 10
+    · simp only [h, dif_pos, parseDigits]
+      rw [digitVal_ofNat n h]
+      simp
+    · simp only [h, dif_neg, not_false_eq_true]
+      rw [parseDigits_append, ih (n / 10) (by omega)]
+      simp only [parseDigits, digitVal_ofNat (n % 10) (by omega)]
+      congr 1; omega
+
+theorem renderNat_head (n : Nat) : ∃ d rest, d < 10 ∧ renderNat n = UInt8.ofNat (48 + d) :: rest := by
+  induction n using Nat.strongRecOn with
+  | _ n ih =>
+    rw [renderNat]
+    by_cases h : n < 10
+    · exact ⟨n, [], h, by simp [h]⟩
+    · obtain ⟨d, rest, hd, hr⟩ := ih (n / 10) (by omega)
+      exact ⟨d, rest ++ [UInt8.ofNat (48 + n % 10)], hd, by simp [h, hr]⟩
+
 /-! ## arithmetic: `applyBin` is `binSem` -/
 
 theorem isPow2_iff (r : UInt64) : isPow2 r = true ↔ ∃ k, k < 64 ∧ r.toNat = 2 ^ k := by
